@@ -485,7 +485,7 @@ def c15_run(rep, rng, tier, term):
     for n in range(1, 5 if tier == 'quick' else 6):
         for tup in itertools.product(alpha[:9] if n > 3 else alpha, repeat=n):
             cases.append(''.join(tup))
-    more = ['38;5;214', '38;2;1;2;3', '48;5;0', '58;2;255;255;255', '38;5;256', '38;2;1;2', '38;5', '38', '0', '00', '01', '007', '1;31', '99',
+    more = ['\uff13\uff11', '\u0663', '3\uff11', '38;5;\u0661', '\U0001d7d1', '\u00b2', '38;5;214', '38;2;1;2;3', '48;5;0', '58;2;255;255;255', '38;5;256', '38;2;1;2', '38;5', '38', '0', '00', '01', '007', '1;31', '99',
             '22', '107', '108', '56', '57', '60', '4;58;5;1', '38;5;1;1', ' 1', '1 ', '+1', '-1', '1_0', '１', '٣', '1;', ';1', ';', '[1', 'a', '~', '@', '?', '38;3;1',
             '58;5;7', '58;2;0;0;0', '48;2;0;0;256', '255', '256', '1.0', '1e1', '0x1', '\x7f', 'é1']
     # structured: every extended-colour group shape with boundary values at every position (in range, just out of
@@ -509,7 +509,7 @@ def c15_run(rep, rng, tier, term):
             viol.append({'oracle': 'C15.cache', 'case': payload, 'msg': 'flags depend on evaluation order / caching: %s %s' % ((v1, p1), (v2, p2))})
         if v1 != independent_valid(t):
             viol.append({'oracle': 'C15.valid', 'case': payload, 'msg': 'valid(%r) = %s, independent grammar says %s' % (t, v1, independent_valid(t))})
-        if t.isascii() and p1 != independent_parsable(t):
+        if p1 != independent_parsable(t):          # non-ASCII digits, spaces, signs are not SGR parameter bytes either
             viol.append({'oracle': 'C15.parsable', 'case': payload, 'msg': 'parsable(%r) = %s, independent grammar says %s' % (t, p1, independent_parsable(t))})
         if t.isascii() and (bool(a[0]), bool(a[1])) != (v1, p1):
             div.append({'case': payload, 'what': 'valid/parsable', 'impl': [v1, p1], 'model': [bool(a[0]), bool(a[1])]})
@@ -614,14 +614,13 @@ def unobservable_violations(prop, ops_of_interest):
 def c16_run(rep, rng, tier, term):
     viol = []
     g = Gen(rng, odd=False)
-    vals = impl.build_values(rng, 300 if tier == 'quick' else 6000, odd=False)
+    vals = impl.build_values(rng, 300 if tier == 'quick' else 6000, odd=False, kinds=(0, 0, 1))
     impl.drain_unobservable()
     for (o, ops, i) in vals:
-        if not isinstance(o, AnsiString):
-            continue
+        is_str = not isinstance(o, AnsiString)        # AnsiStr: the method returns a new value
         for _ in range(6 if tier == 'quick' else 8):
             base = o.base_str
-            pts = [k for k in o._fmts if 0 < k < len(base)]
+            pts = [k for k in (o._s if is_str else o)._fmts if 0 < k < len(base)]
             if pts and rng.random() < 0.45:
                 # a match that straddles a style change point (settings start or stop strictly inside it)
                 k = rng.choice(pts)
@@ -631,6 +630,9 @@ def c16_run(rep, rng, tier, term):
                 k = rng.randrange(len(base)); pat, regex = base[k:k + rng.choice([1, 2, 3])], False
             else:
                 pat, regex = rng.choice(C16_PATTERNS)
+            if not regex and pat and rng.random() < 0.3:
+                # the literal occurs only with another letter case (matching ignores case unless match_case=True)
+                pat = pat.swapcase() if rng.random() < 0.5 else pat.upper()
             mc = rng.random() < 0.5
             cnt = rng.choice([-1, -1, 0, 1, 2, 3])
             un = rng.random() < 0.4
@@ -645,10 +647,12 @@ def c16_run(rep, rng, tier, term):
                 forms = [form_py(g.simple_form()) for _ in range(rng.randint(0, 2))]
             payload = {'history': ops, 'object': i, 'method': 'unformat_matching' if un else 'format_matching', 'pattern': pat, 'regex': regex,
                        'match_case': mc, 'count': cnt, 'format': [repr(f) for f in forms]}
-            rep.count(payload, len(o._fmts) >= 2)
-            rep.bump('unformat' if un else 'format')
-            c1, c2 = AnsiString(o), AnsiString(o)
+            rep.count(payload, len((o._s if is_str else o)._fmts) >= 2)
+            rep.bump(('AnsiStr.' if is_str else '') + ('unformat' if un else 'format'))
+            c1, c2 = (o if is_str else AnsiString(o)), AnsiString(o)
             r1 = call(lambda: (c1.unformat_matching if un else c1.format_matching)(pat, *forms, regex=regex, match_case=mc, count=cnt))
+            if is_str and r1[0] == 'ok':
+                c1 = r1[1]                               # the returned AnsiStr carries the result
             def loop():
                 p = pat if regex else re.escape(pat)
                 n = cnt
@@ -1054,6 +1058,8 @@ def c13_args(rng, o):
     n = len(base)
     g = Gen(rng, odd=False)
     sub = sub_of(rng, base)
+    if sub and rng.random() < 0.25:
+        sub = sub.swapcase()             # occurs only with another letter case
     f = lambda: form_py(g.simple_form())
     a, b = optint(rng, n), optint(rng, n)
     w = rng.choice([0, n, n + 1, n + 3, n + 4])
